@@ -6,7 +6,7 @@
      EVERY behaviour of the components ([react], [req] arbitrary) - and that this is false for the two pre-fix variants;
    * run() is exactly "steps until the clock reaches the stop time"; run_until/run_for/InteractiveContext.run agree with
      it when the global step is constant, and are shown NOT to agree in general with per-simulant clocks
-     ([run_until_variable_step_differs]: new finding F-W, replay on the real code: corpus/C01/FW_demo.py);
+     ([run_until_variable_step_differs]: new finding F-AB, replay on the real code: corpus/C01/FAB_demo.py);
    * the RESUME theorems say only that the model's step function has no memory outside [sim_state];
    * the CHANNEL lemmas say that the set-iteration orders the code is exposed to cannot change a successful update,
      a table read as a map, or a stratification tuple.
